@@ -65,7 +65,7 @@ def _mc(ctx, mode):
     """the intended design (timer broadcast cannot fall between arming and Wait): every invariant holds"""
     s = _mc_subst(mode, ctx.quick())
     s.update({"DEV": "{{}}", "UNLOCKED": "FALSE", "INVS": "NoLostWakeup TimerCovers"})
-    r = lib.run_tlc(ctx, "StreamPipe", "StreamPipe_mc.cfg", s, tag="mc_" + mode, workers=TLCW, timeout=1500)
+    r = lib.run_tlc(ctx, "StreamPipe", "StreamPipe_mc.cfg", s, tag="mc_" + mode, workers=TLCW if ctx.quick() else max(TLCW, lib.NCPU // 2), timeout=3000)
     lib.require_ok(r, "StreamPipe (%s)" % mode)
     return {"mode": mode, "timer_unlocked": False, "distinct": r.distinct, "generated": r.generated, "constants": s}
 
@@ -108,9 +108,11 @@ def _neg(ctx, flag, inv, mode):
 
 def _gen(ctx, tag, mode, limit, depth, simulate, dev="{{}}", narrow=False):
     # narrow alphabet (one payload size, one target size): one step deeper for the timer / deadline interleavings
-    units = "{1}" if narrow else ("{0,1,2,3}" if (simulate or not ctx.quick()) else "{0,1,2}")
+    units = "{1}" if narrow else ("{0,1,2,3}" if simulate else "{0,1,2}")
     s = {"MODE": mode, "READERS": "{1,2}", "WRITERS": "{11,12}", "LIMIT": limit, "SIZES": units, "CAPS": units,
-         "T": depth + 2, "DLS": "{0,1,2}", "DEPTH": depth, "DEV": dev}
+         "T": depth + 2, "DLS": "{0,1,2}", "DEPTH": depth, "DEV": dev,
+         # a deviating model (binding self-test, see x01.NOTES.md) is generated without the invariants it breaks
+         "INVS": "PrefixInv Conservation EofFinal NoLostWakeup TimerCovers" if dev == "{{}}" else "PrefixInv Conservation"}
     r = lib.run_tlc(ctx, "StreamPipeGen", "StreamPipeGen.cfg", s, tag="gen_" + tag, simulate=simulate,
                     depth=(8 * depth + 8) if simulate else None, workers=(1 if simulate else TLCW), timeout=1500)
     lib.require_ok(r, "StreamPipeGen " + tag)
